@@ -274,6 +274,9 @@ func C14(c *vf.Check) {
 	rule, bounds := c.Cov["rule"], c.Cov["bounds"]
 	runFam(c, famSpec{id: "C14", fam: "indep", name: "F_indep", sizeQ: "4", sizeT: "5", tapeQ: "1", tapeT: "2", callsQ: 6, callsT: 8,
 		keys: fullKeys, deleg: true, budget: 40, rule: "F_indep"})
-	c.Cov["rule"] = fmt.Sprint(rule) + "; plus F_indep: every generator up to MaxSize that holds a local iterator `it` (pulled by hand, also after exhaustion, or delegated to), delegates created by YieldFrom and a second iterator created in a later step: an exhausted iterator stays exhausted and a live one is not disturbed, whatever else is created meanwhile"
-	c.Cov["bounds"] = J{"MC_Sched": bounds, "F_indep": c.Cov["bounds"]}
+	// iterators handed OUT by a generator of generators, kept and advanced round-robin by the consumer
+	runFam(c, famSpec{id: "C14", fam: "gg", name: "F_gg", sizeQ: "3", sizeT: "4", tapeQ: "2", tapeT: "2", callsQ: 8, callsT: 10,
+		keys: fullKeys, deleg: true, budget: 60, opts: srcOpts{GG: true}, rule: "F_gg"})
+	c.Cov["rule"] = fmt.Sprint(rule) + "; plus F_gg: every generator of GENERATORS up to MaxSize (yields fresh instances of two delegates, in loops, as post statement), consumed by a flattening round-robin consumer that keeps every delivered handle and advances all of them, exhausted ones included, in every cycle (spec: GGStep); plus F_indep: every generator up to MaxSize that holds a local iterator `it` (pulled by hand, also after exhaustion, or delegated to), delegates created by YieldFrom and a second iterator created in a later step: an exhausted iterator stays exhausted and a live one is not disturbed, whatever else is created meanwhile"
+	c.Cov["bounds"] = J{"MC_Sched": bounds, "F_indep/F_gg": c.Cov["bounds"]}
 }
